@@ -123,6 +123,8 @@ def seq_parts(v, path=None, body_path=None, depth=0, paths=None):
             return []
         if fn in _TRANSPARENT and len(v.args) == 1:
             return seq_parts(v.args[0], path, body_path, depth + 1, paths)
+        if fn.rsplit("::", 1)[-1] == "drain" and len(v.args) == 2 and show(v.args[1]) in ("RangeFull", "std::ops::RangeFull", "RangeFull{}"):
+            return seq_parts(v.args[0], path, body_path, depth + 1, paths)        # drain(..) yields the whole sequence, in order
         if fn == "std::iter::Iterator::chain" and len(v.args) == 2:
             return seq_parts(v.args[0], path, body_path, depth + 1, paths) + seq_parts(v.args[1], path, body_path, depth + 1, paths)
         if fn == "std::iter::Iterator::rev" and len(v.args) == 1:
